@@ -166,6 +166,10 @@ pub mod capture {
     pub static LIR_BLOCKS: Mutex<Vec<(String, Vec<(String, Vec<String>)>)>> =
         Mutex::new(Vec::new());
 
+    /// (item name, lines "key=value": scope, entry block, return_ptr, context, parameters, stack slots)
+    pub static LIR_META: Mutex<Vec<(String, Vec<String>)>> =
+        Mutex::new(Vec::new());
+
     /// (address, name, bytes as stored by the runtime) of every registered constant
     pub static CONSTANTS: Mutex<Vec<(usize, String, Vec<u8>)>> =
         Mutex::new(Vec::new());
@@ -189,6 +193,10 @@ pub mod capture {
         LIR_BLOCKS.lock().unwrap().push((name.to_string(), blocks));
     }
 
+    pub fn lir_meta(name: &str, lines: Vec<String>) {
+        LIR_META.lock().unwrap().push((name.to_string(), lines));
+    }
+
     pub fn constant(addr: usize, name: String, bytes: Vec<u8>) {
         CONSTANTS.lock().unwrap().push((addr, name, bytes));
     }
@@ -206,6 +214,7 @@ pub mod capture {
         LIR.lock().unwrap().clear();
         CONSTANTS.lock().unwrap().clear();
         LIR_BLOCKS.lock().unwrap().clear();
+        LIR_META.lock().unwrap().clear();
         DATA.lock().unwrap().clear();
         SYMBOLS.lock().unwrap().clear();
     }
